@@ -113,9 +113,15 @@ EdgeCount == 24
 EdgeScn(k) == [id |-> 100000 + k, kind |-> "edge", user |-> <<>>, platform |-> <<>>,
                port |-> EdgePorts[1 + (k % 4)], transport |-> EdgeTypes[1 + ((k \div 4) % 3)],
                first |-> IF (k \div 12) % 2 = 0 THEN "port" ELSE "type"]
+\* a value that is empty: the later option still wins (an empty list of failure strings switches the marking off, also over the
+\* list a platform definition brought along)
+EmptyCount == 3
+EmptyScn(k) == [id |-> 200000 + k, kind |-> "edge-empty", user |-> <<>>, platform |-> <<>>,
+                port |-> 0, transport |-> "", first |-> <<"user-then-empty", "platform-then-empty", "empty-then-user">>[k + 1]]
 Init == n = 0
 Next == n < Count /\ n' = n + 1 /\ Assert(OrderLaw(n), "order law violated") /\ PrintT("SCN " \o ToJson(Scn(n)))
              /\ (n % 5 = 0 => PrintT("SCN " \o ToJson(InvScn(n))))
              /\ (n < EdgeCount => PrintT("SCN " \o ToJson(EdgeScn(n))))
+             /\ (n < EmptyCount => PrintT("SCN " \o ToJson(EmptyScn(n))))
 Spec == Init /\ [][Next]_n
 =============================================================================
